@@ -16,19 +16,20 @@ import (
 )
 
 type Module struct {
-	Name    string
-	Static  []int    // statically imported modules
-	Dynamic []int    // dynamically imported modules (in statement order)
-	Assets  []string // file-loader assets imported
-	Copies  []string // copy-loader files imported
-	CSS     []string // css files imported
-	Ext     []string // external packages imported
-	Lit     string
-	Comment string
-	Legal   string
-	Planted string // placeholder-like text carried in a string literal
-	Unused  bool   // exports an extra binding nobody imports (tree shaking)
-	CJS     bool   // module.exports style (wrapped)
+	Name       string
+	Static     []int    // statically imported modules
+	Dynamic    []int    // dynamically imported modules (in statement order)
+	Assets     []string // file-loader assets imported
+	Copies     []string // copy-loader files imported
+	CSS        []string // css files imported
+	Ext        []string // external packages imported
+	Lit        string
+	Comment    string
+	Legal      string
+	Planted    string // placeholder-like text carried in a string literal
+	Unused     bool   // exports an extra binding nobody imports (tree shaking)
+	CJS        bool   // module.exports style (wrapped)
+	PureImport bool   // imports ./pure0.js for side effects (it has none: tree-shaken entirely)
 }
 
 type CSSFile struct {
@@ -43,33 +44,33 @@ type CSSFile struct {
 }
 
 type Opt struct {
-	Entries        []string
-	Splitting      bool
-	Format         string // esm cjs iife
-	EntryNames     string
-	ChunkNames     string
-	AssetNames     string
-	PublicPath     string
-	Sourcemap      string // "" linked external inline both
-	NoSrcContent   bool
-	SourceRoot     string
-	Legal          string // "" none inline eof linked external
-	MinifyW        bool
-	MinifyI        bool
-	MinifyS        bool
-	BannerJS       string
-	FooterJS       string
-	BannerCSS      string
-	Outbase        string
-	External       []string
-	Stdin          string // contents of a stdin entry ("" none)
-	Inject         []string
-	MetafileStyle  string
-	NoBundle       bool
-	OutExtJS       string
-	Platform       string
-	AssetsAsCopy   bool // .png handled by the copy loader instead of file
-	DataurlForTxt  bool
+	Entries       []string
+	Splitting     bool
+	Format        string // esm cjs iife
+	EntryNames    string
+	ChunkNames    string
+	AssetNames    string
+	PublicPath    string
+	Sourcemap     string // "" linked external inline both
+	NoSrcContent  bool
+	SourceRoot    string
+	Legal         string // "" none inline eof linked external
+	MinifyW       bool
+	MinifyI       bool
+	MinifyS       bool
+	BannerJS      string
+	FooterJS      string
+	BannerCSS     string
+	Outbase       string
+	External      []string
+	Stdin         string // contents of a stdin entry ("" none)
+	Inject        []string
+	MetafileStyle string
+	NoBundle      bool
+	OutExtJS      string
+	Platform      string
+	AssetsAsCopy  bool // .png handled by the copy loader instead of file
+	DataurlForTxt bool
 }
 
 type Project struct {
@@ -142,6 +143,9 @@ func (p *Project) renderModule(i int) string {
 		fmt.Fprintf(&sb, "import * as e%d from %q;\n", k, e)
 		terms = append(terms, fmt.Sprintf("String(e%d.x)", k))
 	}
+	if m.PureImport {
+		fmt.Fprintf(&sb, "import %q;\n", relImport(m.Name, "pure0.js"))
+	}
 	fmt.Fprintf(&sb, "export const %s = %s;\n", modVar(i), strings.Join(terms, " + "))
 	if m.Unused {
 		fmt.Fprintf(&sb, "export const unused%d = %q;\n", i, "never-used-"+m.Lit)
@@ -202,25 +206,25 @@ func (p *Project) Render() map[string]string {
 
 func (o *Opt) BuildOptions(dir string) api.BuildOptions {
 	b := api.BuildOptions{
-		AbsWorkingDir: dir,
-		Outdir:        filepath.Join(dir, "out"),
-		Bundle:        !o.NoBundle,
-		Write:         false,
-		LogLevel:      api.LogLevelSilent,
-		Metafile:      true,
-		EntryPoints:   append([]string{}, o.Entries...),
-		Splitting:     o.Splitting,
-		EntryNames:    o.EntryNames,
-		ChunkNames:    o.ChunkNames,
-		AssetNames:    o.AssetNames,
-		PublicPath:    o.PublicPath,
-		SourceRoot:    o.SourceRoot,
+		AbsWorkingDir:     dir,
+		Outdir:            filepath.Join(dir, "out"),
+		Bundle:            !o.NoBundle,
+		Write:             false,
+		LogLevel:          api.LogLevelSilent,
+		Metafile:          true,
+		EntryPoints:       append([]string{}, o.Entries...),
+		Splitting:         o.Splitting,
+		EntryNames:        o.EntryNames,
+		ChunkNames:        o.ChunkNames,
+		AssetNames:        o.AssetNames,
+		PublicPath:        o.PublicPath,
+		SourceRoot:        o.SourceRoot,
 		MinifyWhitespace:  o.MinifyW,
 		MinifyIdentifiers: o.MinifyI,
 		MinifySyntax:      o.MinifyS,
 		External:          append([]string{}, o.External...),
 		Inject:            append([]string{}, o.Inject...),
-		Loader: map[string]api.Loader{".png": api.LoaderFile, ".bin": api.LoaderCopy, ".txt": api.LoaderText, ".svg": api.LoaderDataURL},
+		Loader:            map[string]api.Loader{".png": api.LoaderFile, ".bin": api.LoaderCopy, ".txt": api.LoaderText, ".svg": api.LoaderDataURL},
 	}
 	if o.AssetsAsCopy {
 		b.Loader[".png"] = api.LoaderCopy
@@ -565,6 +569,13 @@ func GenProject(r *Rng, cfg GenCfg) *Project {
 			p.Mods[0].Comment = "uses injected"
 			p.Extra["uses-inject.js"] = "console.log(injected);\n"
 			o.Entries = append(o.Entries, "uses-inject.js")
+		}
+		if r.Chance(30) {
+			k := r.Intn(nm)
+			if !p.Mods[k].CJS {
+				p.Mods[k].PureImport = true
+				p.Extra["pure0.js"] = "export const never = \"PUREMARK\";\n"
+			}
 		}
 		o.AssetsAsCopy = r.Chance(15)
 		if r.Chance(15) {
